@@ -102,12 +102,28 @@ func (nc *nodeCase) defMutant(parent, kind string) string {
 		bad = "coinbase-order"
 	case "spend-missing":
 		// an output that exists on no ancestor of this block (created on another branch or later)
-		var foreign string
+		// (preferably one that was also SPENT on that other branch: if the reorganisation that
+		// abandoned the branch restored it by mistake, it sits in the store as a phantom utxo)
+		var foreign, foreignSpent string
+		spentAnywhere := map[string]bool{}
+		for _, tis := range nc.blockTxs {
+			for _, ti := range tis {
+				for _, in := range ti.ins {
+					spentAnywhere[in] = true
+				}
+			}
+		}
 		for _, name := range nc.ln.order {
 			o := nc.ln.outs[name]
 			if _, ok := bv.created[name]; !ok && o.amount > ledgerFee+1 && o.kind == 'n' && !o.cb {
 				foreign = name
+				if spentAnywhere[name] {
+					foreignSpent = name
+				}
 			}
+		}
+		if foreignSpent != "" && rng.Intn(3) > 0 {
+			foreign = foreignSpent
 		}
 		if foreign == "" {
 			return ""
@@ -549,6 +565,68 @@ func genCaseRules(c *Ctx, mode string) {
 	}
 	for len(held) > 0 && !nc.dead {
 		release()
+	}
+	// phantom scenario: a branch [a1 (creates output O), a2 (spends O)] is abandoned by ONE
+	// reorganisation that detaches both blocks; afterwards a mutant on the winning branch spends
+	// O, an output that no block of its own branch creates (detaching in the wrong order, or
+	// restoring what a detached block spent without removing what a detached block created,
+	// leaves O in the store as a spendable phantom)
+	if rng.Intn(2) == 0 && !nc.dead {
+		fork := validTips[len(validTips)-1]
+		var txs []*txInfo
+		for try := 0; try < 6 && len(txs) == 0; try++ {
+			txs = nc.randomTxs(fork)
+		}
+		a1 := ""
+		if len(txs) > 0 {
+			a1 = nc.defBlock(fork, 0, 6, txs)
+		}
+		var o string
+		if a1 != "" {
+			for _, ti := range txs {
+				for _, out := range ti.outs {
+					if oi := nc.ln.outs[out]; oi.kind == 'n' && oi.amount > 3*ledgerFee {
+						o = out
+					}
+				}
+			}
+		}
+		if o != "" {
+			oi := nc.ln.outs[o]
+			t2 := nc.ln.buildTx([]string{o}, []outSpec{{'n', oi.amount - ledgerFee}}, 0)
+			a2 := nc.defBlock(a1, 0, 6, []*txInfo{t2})
+			if a2 != "" {
+				send(a1)
+				send(a2)
+				// the competing branch: three empty blocks from the fork point
+				tip, okB := fork, true
+				var bs []string
+				for i := 0; i < 3 && okB; i++ {
+					nb := nc.defBlock(tip, 1, 7, nil)
+					if nb == "" {
+						okB = false
+						break
+					}
+					bs = append(bs, nb)
+					tip = nb
+				}
+				if okB {
+					for _, nb := range bs {
+						send(nb)
+					}
+					c.Count("phantom-scenarios")
+					// spend-missing prefers an output that was created AND spent elsewhere
+					for try := 0; try < 4; try++ {
+						if m := nc.defMutant(tip, "spend-missing"); m != "" {
+							c.Count("mutant:spend-missing")
+							send(m)
+							break
+						}
+					}
+					validTips = append(validTips, tip)
+				}
+			}
+		}
 	}
 	c.Distinct(fmt.Sprintf("rules-%d-%d", c.Seed, c.nOps))
 	c.Count(fmt.Sprintf("E=%d", E))
